@@ -1,7 +1,7 @@
 #!/bin/bash
 # Regenerate /verif/go.mod and go.sum from /repo's module files (see DESIGN.md 1.1).
 set -e
-V=/verif
+V=${VERIF_DIR:-/verif}
 R=${VERIF_REPO:-/repo}
 tmp=$(mktemp)
 {
